@@ -41,6 +41,9 @@ var rmCmd = &cobra.Command{
 		return nil
 	},
 	RunE: func(cmd *cobra.Command, args []string) error {
+		if err := errIfEmptyPath(args); err != nil {
+			return err
+		}
 		args = toWorkTreePaths(args)
 
 		// args validation
